@@ -279,6 +279,30 @@ def oracle_assembly(case):
     return ds
 
 
+def oracle_ensemble(case):
+    """K conformers of a fragment of 2-4 residues pooled into ONE residue list (the models of an NMR ensemble or
+    superposed alternatives handed over together), each displaced atom by atom by a fixed smooth function of (copy,
+    residue, atom): dozens of selected atoms lie within the search radius of one atom - a local density no single
+    model reaches, where a neighbour search that caps the neighbours per atom, or works in buckets, loses pairs"""
+    import numpy as np
+    from rnaverif import gen3d
+
+    s3 = corpus.structure(case["file"])
+    first = case["first"] % max(1, len(s3.residues) - case["span"])
+    keep = set(range(first, first + case["span"]))
+    amp = case["amp"]
+    residues = []
+    for c in range(case["copies"]):
+        def move(xyz, ri, k, c=c):
+            return xyz + amp * np.array([math.sin(1.7 * c + 0.9 * k + 0.3 * ri), math.sin(2.3 * c + 1.1 * k + 0.5), math.cos(1.3 * c + 0.7 * k + 0.2 * ri)])
+        part = gen3d.rebuild(s3, point_fn=move, keep=keep, model=c + 1,
+                             occupancy_fn=(lambda ri, name, occ, c=c: round(1.0 / case["copies"], 3) if (c + ri + len(name)) % 3 == 0 else occ) if case.get("partial") else None)
+        residues += list(part.residues)
+    ds, total, sums = check_find_clashes(residues, options=[tuple(o) for o in case["opts"]] if case.get("opts") else None)
+    case["_info"] = {"clashes": total, "sums": len(sums), "atoms": sum(len(r.atoms) for r in residues)}
+    return ds
+
+
 def oracle_file(case):
     s3 = corpus.structure(case["file"], 1) if False else corpus.structure(case["file"])
     ds, total, sums = check_find_clashes(s3.residues)
@@ -433,6 +457,8 @@ def oracle_cli(case):
 def oracle(case):
     if case.get("kind") == "cli":
         return oracle_cli(case)
+    if case.get("kind") == "ensemble":
+        return oracle_ensemble(case)
     if case.get("kind") == "assembly":
         return oracle_assembly(case)
     if "file" in case:
@@ -473,6 +499,8 @@ def plan(tier, seed):
         specs += [{"kind": "cli-fixed"}]
         specs += [{"kind": "assembly", "file": "6g90_1.cif", "copies": 8, "opts": [[True, True, False, False, True]]},
                   {"kind": "assembly", "file": "6g90_1.cif", "copies": 8, "opts": [[True, False, False, False, True]]}]
+        few = [[True, False, False, False, True], [True, True, False, False, False], [False, False, False, False, True], [False, True, True, True, False]]
+        specs += [{"kind": "ensemble", "files": [f], "copies": [c], "amps": [0.35, 0.8], "opts": few} for f in corpus.SMALL[:3] for c in (8, 14)]
     else:
         specs = [{"kind": "files", "files": [f]} for f in corpus.all_files()]
         specs += [{"kind": "synthetic", "examples": 4000, "seed": seed * 1000 + k} for k in range(16)]
@@ -481,6 +509,7 @@ def plan(tier, seed):
         big = [[io, ia, False, sn, mp] for io in (True, False) for ia in (True, False) for sn in (True, False) for mp in (True, False)]
         specs += [{"kind": "assembly", "file": "6g90_1.cif", "copies": 12, "opts": [o]} for o in big]
         specs += [{"kind": "assembly", "file": "4qln.cif", "copies": 20, "opts": [o]} for o in big[:4]]
+        specs += [{"kind": "ensemble", "files": [f], "copies": [5, 8, 12, 20], "amps": [0.2, 0.35, 0.8, 1.5]} for f in corpus.SMALL[:6]]
     return specs
 
 
@@ -515,6 +544,17 @@ def run_shard(spec) -> ShardResult:
             check_case(PROP_ID, oracle, case, res, to_json=to_json)
             info = case.get("_info", {})
             res.note_case({**to_json(case), **info}, info.get("clashes", 0) >= 3, ["assembly-of-translated-copies", f"atoms={info.get('atoms', 0) // 10000 * 10000}+"])
+    elif spec["kind"] == "ensemble":
+        for f in spec["files"]:
+            for copies in spec["copies"]:
+                for amp in spec["amps"]:
+                    for first, span, partial in ((0, 2, False), (3, 3, True), (7, 4, False)):
+                        case = {"kind": "ensemble", "file": f, "copies": copies, "amp": amp, "first": first, "span": span, "partial": partial, "opts": spec.get("opts")}
+                        check_case(PROP_ID, oracle, case, res, to_json=to_json)
+                        info = case.get("_info", {})
+                        res.note_case(to_json(case), info.get("clashes", 0) > 0, ["ensemble-pooled-conformers", f"conformers={copies}"], sample_cap=1)
+                        res.extra["max_atoms_in_an_ensemble"] = max(res.extra.get("max_atoms_in_an_ensemble", 0), info.get("atoms", 0))
+        res.exhaustive = False
     elif spec["kind"] == "synthetic":
         run_hypothesis(PROP_ID, st_cases(), oracle, seed=spec["seed"], max_examples=spec["examples"], result=res,
                        to_json=to_json, classify=classify, sample_cap=1)
